@@ -135,7 +135,7 @@ class Prop(PropBase):
         inf_ref = case["ref"] == "inf"
         dmF, refF, rateF = X.frac(dmv), (None if inf_ref else X.q_value(r, u.Hz)), X.frac(case["rate"])
         irF = F(0) if inf_ref else 1 / refF
-        Hs, ratios = [], []
+        Hs, ratios, directs = [], [], []
         for c, f_c in enumerate(z.channel_freqs):
             fc = X.q_value(f_c, u.Hz)
             ph, tolk = [], []
@@ -151,7 +151,20 @@ class Prop(PropBase):
             want = np.exp(-2j * np.pi * np.array(ph))
             Hs.append(want)
             ratios.append(float(np.max(np.abs(chm[:, c] - want) / np.array(tolk))))
+            # the public chirp_function called directly, with the sample spacing, channel centre and reference frequency
+            # written in other (legal) units: the same transfer function
+            if c in (0, case["n"] - 1):
+                sd = case["seed"] + c
+                dtq = [z.dt.to(u.us), z.dt.to(u.ns), z.dt.to(u.ms), 1 / z.sample_rate, 1 / z.sample_rate.to(u.MHz), z.dt][sd % 6]
+                fq = [f_c, f_c.to(u.GHz), f_c.to(u.Hz)][(sd // 6) % 3]
+                rq = r if inf_ref else [r, r.to(u.GHz), r.to(u.kHz)][(sd // 18) % 3]
+                try:
+                    d = np.asarray(DM.chirp_function(N, dtq, fq, rq, use_dask=bool(sd % 2))).astype(np.complex128)
+                    directs.append(float(np.max(np.abs(d - want) / np.array(tolk))) / 2 if d.shape == (N,) else float("inf"))
+                except Exception as e:  # noqa
+                    out["direct_err"] = err_name(e)
         out["chirp_ratio"] = max(ratios)
+        out["direct_ratio"] = max(directs) if directs else 0.0
         out["chirp_tol_turns"] = [float((abs(float(K_HZ * dmF * X.q_value(f_c, u.Hz) * (irF - 1 / X.q_value(f_c, u.Hz)) ** 2)) + 1.0)
                                         * 2.0 ** -48 * 64 + 2.0 ** -20 / (2 * math.pi)) for f_c in z.channel_freqs]
         start = math.ceil(-min(0, F(float(dtop)), F(float(dbot))))
@@ -222,6 +235,9 @@ class Prop(PropBase):
         N = case["N"]
         if code["chirp_shape"][:2] != [N, case["n"]] or code["chirp_dtype"] != "complex64" or not code["chirp_lazy"]:
             return f"chirp has shape/dtype/container {code['chirp_shape']} {code['chirp_dtype']}"
+        if code.get("direct_err") or code.get("direct_ratio", 0.0) > 1.0:
+            return (f"DM.chirp_function called directly with the spacing/frequencies in other units: "
+                    f"{code.get('direct_err') or code.get('direct_ratio')} (x tolerance)")
         if code["chirp_ratio"] > 1.0 or code["chirp_moddev"] >= 2.0 ** -21:
             return (f"chirp deviates from exp(-2 pi i K DM f (1/ref-1/f)^2): {code['chirp_ratio']:.3g} x tolerance, "
                     f"| |H|-1 | = {code['chirp_moddev']:.3g}")
